@@ -51,6 +51,26 @@ def precedence_matrix():
     return out
 
 
+def doc_corpus():
+    """programs outside the generator's grammar whose output follows from the documentation alone: (name, source, expected stdout)"""
+    return [
+        ("element assignment as an expression yields the assigned value", "function main() -> void { int[] a = {1, 2}; int x = a[1] = 5; echo(x); echo(a); }", "5\n{1, 5}\n"),
+        ("chained element assignment", "function main() -> void { int[] b = {0, 0}; b[0] = b[1] = 7; echo(b); }", "{7, 7}\n"),
+        ("element assignment whose value writes the same array", "class H { public int[] xs = {1, 2, 3}; public constructor() -> H { }\n"
+         "  public function bump() -> int { xs[2] = 30; return 20; }\n  public function go() -> void { xs[1] = bump(); echo(xs); } }\n"
+         "function main() -> void { H h = new H(); h.go(); }", "{1, 20, 30}\n"),
+        ("int literal array as a long[] argument", "function sq(long[] v) -> long { return v[0] * v[0]; }\nfunction main() -> void { echo(sq({100000, 2})); }", "10000000000\n"),
+        ("int literal array as a float[] argument", "function half(float[] v) -> float { return v[0] / 2; }\nfunction main() -> void { echo(half({1, 2})); }", "0.5\n"),
+        ("nested bitwise operators on bit[]", "function main() -> void { bit[] m = {0b, 1b, 1b}; bit[] n = ~m; echo(~(~m)); echo((m & n) | m); echo(m ^ n & 1b); }",
+         "{0, 1, 1}\n{0, 1, 1}\n{1, 1, 1}\n"),
+        ("bit[] operators through a function", "function f(bit[] m) -> bit[] { return ~m | m; }\nfunction main() -> void { bit[] m = {0b, 1b}; echo(f(m) ^ ~m & 1b); }", "{0, 1}\n"),
+        ("for over long and boolean", "function main() -> void { for (long i = 4000000000L; i < 4000000002L; i = i + 1L) { echo(i); } for (boolean go = true; go; go = false) { echo(go); } }",
+         "4000000000\n4000000001\ntrue\n"),
+        ("a local named like a field, initialised from the field", "class C { public int y = 41; public constructor() -> C { }\n  public function m() -> int { int y = y + 1; return y; } }\n"
+         "function main() -> void { C c = new C(); echo(c.m()); echo(c.y); }", "42\n41\n"),
+    ]
+
+
 def run(chk):
     quick = chk.tier == "quick"
     chk.proofs()
@@ -75,6 +95,14 @@ def run(chk):
             stats[k] = stats.get(k, 0) + v
     progs += precedence_matrix()
     recs, counts = lc.differential(chk, progs, "c07")
+    dc = doc_corpus()
+    dres = lc.run_impl([x[1] for x in dc])
+    for (name, src, want), r in zip(dc, dres):
+        if r.get("status") != "ok" or r.get("stdout") != want:
+            chk.report("c07-documented", {"case": name, "source": src, "expected_output": want,
+                                          "implementation": {k: r.get(k) for k in ("status", "cat", "msg", "stdout")}, "how": "run /repo's bloch on the source"},
+                       "%s: expected %r, got %s %r" % (name, want, r.get("status"), (r.get("msg") or r.get("stdout") or "")[:100]))
+    stats["documented-behaviour corpus"] = len(dc)
     agree = [r for r in recs if r["verdict"] == "agree"]
     nontriv = len({r["sx"] for r in agree if (r["model"]["status"] == "err" or len(r["model"].get("lines", [])) >= 2)})
     chk.cov.update({"programs": len(progs), "disagreements_checked": len(progs) - counts.get("agree", 0) - sum(v for k, v in counts.items() if k.startswith("skip") or k == "rejected"),
